@@ -16,6 +16,7 @@ import (
 	"sync/atomic"
 	"testing"
 	"testing/synctest"
+	"time"
 
 	"go.etcd.io/bbolt"
 
@@ -426,6 +427,9 @@ func runBehaviour(t *testing.T, tr *vh.Trace, tid string, m string, beh []Step) 
 			e.c.mu.Unlock()
 
 			synctest.Wait()
+			// virtual time advances between requests, so that creation / update timestamps of different
+			// requests differ (a request object built now must not leak its own creation time anywhere)
+			time.Sleep(time.Second)
 			e.nev.Store(0)
 
 			var (
